@@ -44,6 +44,8 @@ pub enum N {
     CI,
     R,
     Ref,
+    /// block reference with an explicit url (for the action spaces)
+    RefUrl(&'static str),
     T,
     Html,
     Fm,
@@ -106,14 +108,19 @@ fn leaves_alphabet(rich: bool) -> Vec<N> {
 
 /// all forests with at most `budget` nodes and container nesting at most `depth`
 pub fn forests(budget: usize, depth: usize, rich: bool) -> Vec<Vec<N>> {
+    forests_over(budget, depth, &leaves_alphabet(rich), rich)
+}
+
+/// the same over an explicit leaf alphabet (`empty_items`: also lists with an empty item)
+pub fn forests_over(budget: usize, depth: usize, leaves: &[N], rich: bool) -> Vec<Vec<N>> {
     let mut res: Vec<Vec<N>> = vec![vec![]];
     if budget == 0 {
         return res;
     }
-    let mut firsts: Vec<(N, usize)> = leaves_alphabet(rich).into_iter().map(|n| (n, 1)).collect();
+    let mut firsts: Vec<(N, usize)> = leaves.iter().cloned().map(|n| (n, 1)).collect();
     if depth > 0 {
         for b in 1..budget {
-            for ch in forests(b, depth - 1, rich) {
+            for ch in forests_over(b, depth - 1, leaves, rich) {
                 if ch.is_empty() {
                     continue;
                 }
@@ -137,7 +144,7 @@ pub fn forests(budget: usize, depth: usize, rich: bool) -> Vec<Vec<N>> {
         if sz > budget {
             continue;
         }
-        for rest in forests(budget - sz, depth, rich) {
+        for rest in forests_over(budget - sz, depth, leaves, rich) {
             let mut v = vec![f.clone()];
             v.extend(rest);
             res.push(v);
@@ -159,6 +166,7 @@ fn render_blocks(ns: &[N], st: &Style, ctr: &mut usize, out: &mut Vec<String>) {
             N::CI => out.push(format!("    code{}", i)),
             N::R => out.push("---".into()),
             N::Ref => out.push("[two](2)".into()),
+            N::RefUrl(u) => out.push(format!("[r]({})", u)),
             N::T => out.push(format!("| a{} | b |\n|---|---|\n| c | d |", i)),
             N::Html => out.push(format!("<div>html{}</div>", i)),
             N::Fm => out.push(format!("---\ntitle: t{}\n---", i)),
